@@ -41,7 +41,7 @@ CLAIMS['C10'] = dict(
   text="For every request body / upload map / websocket start payload: every implicit panic site (nil dereference, failed type assertion, index, nil-map write) in gqlgen's own code of "
        "POST/GET/GRAPHQL/UrlEncodedForm/SSE/MultipartMixed/MultipartForm.Do, UrlEncodedForm.parse*, wsConnection.subscribe and RawParams.AddUpload is a discharged obligation "
        "(AddUpload fully nopanic for any variables tree, key and path); CreateOperationContext is only called with non-nil parameters (JSON null bodies); in MultipartForm.Do the body is read only "
-       "after the size-limited reader is installed and every created temp file has its removal deferred before anything else can fail (ghost counters, loop invariant); the websocket subscription goroutine lets no panic escape. A refused websocket handshake always ends in a protocol close: wsConnection.init returns false only after close() was called, for every first message including a connection_init whose payload is not an object (repaired defect D10). `safe` is transitive over gqlgen's own code: every gqlgen callee of a function under `safe` is itself under a contract that speaks about panics (safe/nopanic/noescape) or is an explicitly listed assumption, so code moved into a new helper does not leave the claim; the websocket message loop (run, init, close, write, closeOnCancel, Websocket.Do, nextMessageWithTimeout) is under it. Multipart uploads are buffered in memory only under a known Content-Length below MaxMemory (repaired defect D24).",
+       "after the size-limited reader is installed and every created temp file has its removal deferred before anything else can fail (ghost counters, loop invariant); the websocket subscription goroutine lets no panic escape. A refused websocket handshake always ends in a protocol close: wsConnection.init returns false only after close() was called, for every first message including a connection_init whose payload is not an object (repaired defect D10). The federation entity resolvers generated for the entityresolver test data are `safe` for any representation (repaired defects D34, D35). `safe` is transitive over gqlgen's own code: every gqlgen callee of a function under `safe` is itself under a contract that speaks about panics (safe/nopanic/noescape) or is an explicitly listed assumption, so code moved into a new helper does not leave the claim; the websocket message loop (run, init, close, write, closeOnCancel, Websocket.Do, nextMessageWithTimeout) is under it. Multipart uploads are buffered in memory only under a known Content-Length below MaxMemory (repaired defect D24).",
   note=COMMON_NOTE + "net/http, mime/multipart, os, io, encoding/json, gorilla/websocket trusted not to panic on client bytes; stable-field assumption for wsConnection.active/exec; "
        "bytesReader and the websocket message tables are not yet under contract; delivery of exact upload bytes is not decided.")
 
@@ -123,7 +123,9 @@ CLAIMS['C20'] = dict(technique=GOCV + "; family contracts instantiated on federa
   text="On the generated _entities code: buildRepresentationGroups records for every entry the loop index of its representation and that very representation (hence pairwise distinct indices); __resolve_entities returns a list with one slot per representation and joins every group; "
        "in resolveEntityGroup every spawned closure writes at most one slot, list[rep.index] of its own representation, only when its resolver succeeded, and reports at most one error otherwise, one goroutine and one Done per representation; "
        "resolveManyEntities zips positionally over a typedReps slice proved to have exactly len(reps) entries; resolveEntity/resolveManyEntities let no panic escape (they run on goroutines); a resolver name is returned only if not all key fields were null. "
-       "Batch resolvers and several @key directives (repaired defect D20, probe /verif/probes/fedmultikeys): every representation of a group went through the resolver lookup before the group - or what is left of it after those selecting another resolver were split off - is handed to a batch resolver. The index recorded for a representation is its position in the REQUEST (ghost copy of the list handed in), whatever is done to the local slice." + PROBE,
+       "Batch resolvers and several @key directives (repaired defect D20, probe /verif/probes/fedmultikeys): every representation of a group went through the resolver lookup before the group - or what is left of it after those selecting another resolver were split off - is handed to a batch resolver. The index recorded for a representation is its position in the REQUEST (ghost copy of the list handed in), whatever is done to the local slice. "
+       "Every generated resolveManyEntities (family fedmany, repaired defects D33/D36): the surviving batch only grows by appends guarded by a successful lookup with the batch's own resolver, the group is narrowed to it before any batch resolver (callee pattern FindMany*) is called, the typed batch and the usable representations stay the same length (loop * invariant), an element is written at the index of the representation at the same position, and no return statement inside the representation loops carries an error. "
+       "resolveEntity, resolveManyEntities, entityResolverNameFor*, representationField are `safe`: no failed type assertion, index or nil dereference of gqlgen's own on any representation or any user resolver result (repaired defects D34, D35)." + PROBE,
   note=COMMON_NOTE + "No thread model: schedule independence follows only from the proved index-disjointness. Fieldset parsing and other schemas not decided.")
 
 CLAIMS['C11'] = dict(technique=GOCV,
